@@ -95,6 +95,9 @@ SHAPES = {
     "two programs": {"src/p.f90": "program main\nend program main\n", "src/q.f90": "program other\nend program other\n"},
     "procedures only": {"src/s.f90": "subroutine a()\n call b()\nend subroutine a\nsubroutine b()\nend subroutine b\n"},
     "one blockdata": {"src/s.f90": "block data bd\n !! bd doc, see [[pair_t]]\n type pair_t\n  !! pair doc\n  sequence\n  real :: lo, hi\n end type pair_t\n integer :: q\n type(pair_t) :: lim\n common /cq/ q\n common /limits/ lim\nend block data bd\n"},
+    "references to members inherited from a hidden type": {"src/m.f90": "module m\n  !! module doc\n  implicit none\n  private\n  public :: child_t\n  type :: base_t\n    !! base doc\n    integer :: n\n      !! n doc\n"
+                                                                       "  contains\n    procedure :: act\n  end type base_t\n  type, extends(base_t) :: child_t\n    !! child doc, see [[child_t:act]] and [[child_t:n]]\n"
+                                                                       "  end type child_t\ncontains\n  subroutine act(self)\n    !! act doc\n    class(base_t) :: self\n  end subroutine act\nend module m\n"},
     "two blockdata": {"src/s.f90": "block data bd\n integer :: q\n common /cq/ q\nend block data bd\nblock data be\n integer :: r\n common /cr/ r\nend block data be\n"},
     "module and submodule files": {"src/a.f90": "module par\n interface\n  module subroutine w()\n  end subroutine w\n end interface\nend module par\n",
                                    "src/b.f90": "submodule (par) chi\ncontains\n module subroutine w()\n end subroutine w\nend submodule chi\n"},
